@@ -99,14 +99,18 @@ class UnitsProc(Process):
         return {'u': {'mass': {'_default': 1.0 * units.g, '_units': units.g,
                                '_emit': True},
                       'tag': {'_default': 3, '_emit': True,
-                              '_serializer': CTX['tag_serializer']}}}
+                              '_serializer': CTX['tag_serializer']},
+                      # a quantity-valued variable with a custom serializer
+                      'qtag': {'_default': 2.0 * units.g, '_emit': True,
+                               '_serializer': CTX['q_serializer']}}}
 
     def calculate_timestep(self, states):
         return 1
 
     def next_update(self, timestep, states):
         from vivarium.library.units import units
-        return {'u': {'mass': 500.0 * units.mg, 'tag': 1}}
+        return {'u': {'mass': 500.0 * units.mg, 'tag': 1,
+                      'qtag': 1.0 * units.g}}
 
 
 class Last(Step):
@@ -198,6 +202,13 @@ def run_engine(ctx, cfg, flags, es, ivs):
             def serialize(self, data):
                 return 'tag<%d>' % data
         CTX['tag_serializer'] = TagSerializer()
+
+        class QSerializer(Serializer):
+            python_type = None
+
+            def serialize(self, data):
+                return 'qtag<%.1f>' % data.magnitude
+        CTX['q_serializer'] = QSerializer()
         procs['up'] = UnitsProc({'name': 'up'})
         from vivarium.library.units import units as _units
         # the initial value arrives in a compatible unit other than the
@@ -354,6 +365,7 @@ def body(ctx, cfg):
         if cfg.get('units'):
             exp[('u', 'mass')] = r['snap'][('u', 'mass')]
             exp[('u', 'tag')] = r['snap'][('u', 'tag')]
+            exp[('u', 'qtag')] = r['snap'][('u', 'qtag')]
         content.append(set(row) == set(exp))
         content.append(EQ(r['data']['time'], r['g']))
         for p in row:
@@ -373,6 +385,8 @@ def body(ctx, cfg):
                                    q.to(units.g).magnitude) < 1e-9)
             elif p == ('u', 'tag'):
                 content.append(row[p] == 'tag<%d>' % exp[p])
+            elif p == ('u', 'qtag'):
+                content.append(row[p] == 'qtag<%.1f>' % exp[p].magnitude)
             elif p in exp:
                 content.append(EQ(row[p], exp[p]))
     ctx.claim('C12.content', AND(content), sig='content', info=info)
@@ -420,6 +434,8 @@ def body(ctx, cfg):
                 exp[('u', 'mass')] = '!units[%s]' % str(
                     r['snap'][('u', 'mass')].to(_u.g))
                 exp[('u', 'tag')] = 'tag<%d>' % r['snap'][('u', 'tag')]
+                exp[('u', 'qtag')] = 'qtag<%.1f>' % \
+                    r['snap'][('u', 'qtag')].magnitude
             ok.append(set(got) == set(exp))
             for p in got:
                 if p in exp:
